@@ -195,5 +195,7 @@ def r2_fetch_on_publication(ctx):
     r6_fetch_queue(ctx)
 
 
-RULES = [r8_events_returned, r_predicates, r2_fetch_on_publication, r3_r4_flush, r4_output_store, r5_commands, r3_binding, r4_r6_outputs, r7_memory,
+from .sched import r_no_downgrade, r_transfer_source  # noqa: E402
+
+RULES = [r_no_downgrade, r_transfer_source, r8_events_returned, r_predicates, r2_fetch_on_publication, r3_r4_flush, r4_output_store, r5_commands, r3_binding, r4_r6_outputs, r7_memory,
          r5_act, r8_publication_fanout]
